@@ -27,12 +27,14 @@ Inductive mode := MNormal | MCancel | MPreStop.
 (* ARaise fs = the handler raises (rest of its body is dead code); the dispatcher's `except BaseException`
    clause then fires, in this order, the reserved events fs = [<name>_failure (if event.failure);] exception,
    with default priority — queued fires like any other — and goes on with the same handler loop *)
-Inductive act := AFire (name : nat) (k : K) (md : mode) | AFlush | AStop | AGen | ARaise (fs : list (nat * K)).
+(* an event is fired on a tuple of channels [chs] (fire(e, 'a', 'b')): channel ids are nat *)
+Inductive act := AFire (name : nat) (k : K) (md : mode) (chs : list nat) | AFlush | AStop | AGen
+               | ARaise (fs : list (nat * K * list nat)).
 Record handler := { hid : nat; hprio : K; hbody : list act }.
-Variable hs_of : nat -> list handler.   (* chain(getHandlers(...)) order for an event name *)
+Variable hs_of : nat -> nat -> list handler.   (* getHandlers(event, channel), in its iteration order, per event name and channel *)
 
 (* queue entry (priority, counter, (event, channels)); the counter doubles as the event id *)
-Record item := { ikey : K; ictr : nat; iname : nat; imode : mode }.
+Record item := { ikey : K; ictr : nat; iname : nat; imode : mode; ichans : list nat }.
 
 Definition eqk (a b : K) : bool := leb a b && leb b a.
 (* Python tuple comparison (p1, c1, _) < (p2, c2, _) *)
@@ -61,8 +63,18 @@ Definition is_cancel (m : mode) : bool := match m with MCancel => true | _ => fa
 Definition is_pre (m : mode) : bool := match m with MPreStop => true | _ => false end.
 (* the handlers the dispatcher will loop over for a popped entry: `if event.cancelled: return` comes before
    the handler lookup, so a cancelled event occupies its slot of the pass and gets the empty list *)
+(* the handlers of an event delivered on several channels: the union over its channels, every handler once
+   (a handler that matches several of the channels - a '*' handler, or '*' among the channels - runs once),
+   sorted together by descending priority.  [handlers_raw] is the list without the de-duplication. *)
+Fixpoint dedup (seen : list nat) (l : list handler) : list handler :=
+  match l with
+  | [] => []
+  | h :: r => if existsb (Nat.eqb (hid h)) seen then dedup seen r else h :: dedup (hid h :: seen) r
+  end.
+Definition handlers_chain (x : item) : list handler := flat_map (hs_of (iname x)) (ichans x).
+Definition handlers_raw (x : item) : list handler := sort_desc (handlers_chain x).
 Definition handlers_for (x : item) : list handler :=
-  if is_cancel (imode x) then [] else sort_desc (hs_of (iname x)).
+  if is_cancel (imode x) then [] else sort_desc (dedup [] (handlers_chain x)).
 
 Inductive frame :=
 | FBody (ctx : option (nat * nat)) (acts : list act)    (* main program (None) or handler body (event id, handler id) *)
@@ -104,9 +116,9 @@ Definition step (s : state) : option state :=
   | [] => None
   | FBody ctx [] :: k =>
       Some (upd s k (match ctx with Some (e, h) => [TRet e h] | None => [] end))
-  | FBody ctx (AFire n p md :: acts) :: k =>
+  | FBody ctx (AFire n p md cs :: acts) :: k =>
       (* _EventQueue.append: counter += 1; queue.append((priority, counter, ...)) *)
-      let x := {| ikey := p; ictr := counter s; iname := n; imode := md |} in
+      let x := {| ikey := p; ictr := counter s; iname := n; imode := md; ichans := cs |} in
       Some {| fifo := fifo s ++ [x]; heap := heap s; counter := S (counter s); batch := batch s;
               stopped := stopped s; stack := FBody ctx acts :: k; trace := trace s ++ [TFire x];
               crashed := crashed s |}
@@ -125,7 +137,7 @@ Definition step (s : state) : option state :=
       end
   | FBody ctx (ARaise fs :: acts) :: k =>
       match ctx with
-      | Some (e, h) => Some (upd s (FBody ctx (map (fun f => AFire (fst f) (snd f) MNormal) fs) :: k) [TRaise e h])
+      | Some (e, h) => Some (upd s (FBody ctx (map (fun f => AFire (fst (fst f)) (snd (fst f)) MNormal (snd f)) fs) :: k) [TRaise e h])
       | None => Some (upd s (FBody ctx acts :: k) [])                 (* not generated for the main program *)
       end
   | FBody ctx (AFlush :: acts) :: k =>
@@ -187,7 +199,7 @@ End Dispatch.
 
 Arguments AFire {K}. Arguments AFlush {K}. Arguments AStop {K}. Arguments AGen {K}. Arguments ARaise {K}.
 Arguments Build_handler {K}. Arguments hid {K}. Arguments hprio {K}. Arguments hbody {K}.
-Arguments Build_item {K}. Arguments ikey {K}. Arguments ictr {K}. Arguments iname {K}. Arguments imode {K}.
+Arguments Build_item {K}. Arguments ikey {K}. Arguments ictr {K}. Arguments iname {K}. Arguments imode {K}. Arguments ichans {K}.
 Arguments FBody {K}. Arguments FLoop {K}. Arguments FDisp {K}.
 Arguments TFire {K}. Arguments TSnap {K}. Arguments TDisp {K}. Arguments TInv {K}. Arguments TStop {K}.
 Arguments TRet {K}. Arguments TGen {K}. Arguments TRaise {K}. Arguments TDone {K}. Arguments TFlushB {K}. Arguments TFlushE {K}.
@@ -199,10 +211,21 @@ Arguments pf_from {K}. Arguments is_snap {K}. Arguments depth {K}. Arguments is_
 (* ---- instance used to run the model: priorities are integers (the harness maps
    the Python numbers order-preservingly, p -> 2p) *)
 Definition handlerZ := handler Z.
-Fixpoint lookup_hs (tbl : list (nat * list handlerZ)) (n : nat) : list handlerZ :=
+(* handler definitions per event name, and per (name, channel) the handler ids in getHandlers order *)
+Fixpoint lookup_defs (tbl : list (nat * list handlerZ)) (n : nat) : list handlerZ :=
   match tbl with
   | [] => []
-  | (m, l) :: r => if Nat.eqb m n then l else lookup_hs r n
+  | (m, l) :: r => if Nat.eqb m n then l else lookup_defs r n
   end.
-Definition runZ (tbl : list (nat * list handlerZ)) (fuel : nat) (prog : list (act Z)) : state Z :=
-  run Z Z.leb (lookup_hs tbl) fuel (init prog).
+Fixpoint lookup_ord (ord : list (nat * nat * list nat)) (n c : nat) : list nat :=
+  match ord with
+  | [] => []
+  | (m, d, l) :: r => if Nat.eqb m n && Nat.eqb d c then l else lookup_ord r n c
+  end.
+Definition pick (defs : list handlerZ) (i : nat) : list handlerZ :=
+  match find (fun h => Nat.eqb (hid h) i) defs with Some h => [h] | None => [] end.
+Definition hs_tbl (tbl : list (nat * list handlerZ)) (ord : list (nat * nat * list nat)) (n c : nat) : list handlerZ :=
+  flat_map (pick (lookup_defs tbl n)) (lookup_ord ord n c).
+Definition runZ (tbl : list (nat * list handlerZ)) (ord : list (nat * nat * list nat)) (fuel : nat)
+                (prog : list (act Z)) : state Z :=
+  run Z Z.leb (hs_tbl tbl ord) fuel (init prog).
